@@ -18,7 +18,7 @@ PROP = "C07"
 def build_jobs(t_, sd):
     thorough = t_ != "quick"
     jobs = []
-    versions = [5, 6, 7, 8, 9, 10] if thorough else [6, 8]
+    versions = [5, 6, 8, 10] if thorough else [6, 8]
     shapes = G.shapes(t_, sd)
     for si, t in enumerate(shapes):
         for li, lv in enumerate(G.len_vectors(t, t_, sd)):
